@@ -20,7 +20,35 @@ def rule_trailer_comment(check):
     check.floor(R, "trailer sites", n, 1)
 
 
+RAW_TYPES = {"TplElement", "Str", "Number", "BigInt", "Regex", "JSXText"}
+RAW_FIELDS = {"raw", "cooked", "exp", "flags"}
+
+
+def rule_raw_text(check):
+    R = "RAW-TEXT"
+    check.rule(R, "the printer emits the `raw` text of template chunks, strings, numbers and regular expressions verbatim: the rewriter never fabricates or edits such token text (no construction of these nodes, no assignment to their raw/cooked/exp/flags fields), so it cannot assemble text that lexes differently")
+    prog = check.prog
+    n_scanned = 0
+    for f in prog.user_fns:
+        for n in f.nodes():
+            if n.get("k") == "Struct":
+                n_scanned += 1
+                p = (n["res"].get("path") or "")
+                if p.startswith("swc_ecma_ast::") and p.split("::")[-1] in RAW_TYPES:
+                    check.bad(R, "%s/%s/constructs-%s" % (R, X.T.short(f), p.split("::")[-1]), hir.loc(n), "%s constructs a %s: its raw text is printed verbatim and is not re-lexed by the rewriter" % (f.name, p.split("::")[-1]))
+            if n.get("k") in ("Assign", "AssignOp"):
+                n_scanned += 1
+                l = hir.peel(n["l"])
+                if l.get("k") == "Field" and l["field"] in RAW_FIELDS:
+                    bt = (l.get("base_ty") or "").replace("&mut ", "").replace("&", "")
+                    if bt.startswith("swc_ecma_ast::") and bt.split("::")[-1].split("<")[0] in RAW_TYPES:
+                        check.bad(R, "%s/%s/assigns-%s.%s" % (R, X.T.short(f), bt.split("::")[-1], l["field"]), hir.loc(n), "%s rewrites %s.%s: token text assembled by concatenation can lex differently (e.g. `$` + `{` inside a template)" % (f.name, bt.split("::")[-1], l["field"]))
+    check.ok(R, R + "/scan", "-", "%d struct literals / assignments scanned: no token text is fabricated" % n_scanned)
+    check.floor(R, "constructions and assignments scanned", n_scanned, 60)
+
+
 def run(check):
+    check.guarded("RAW-TEXT", rule_raw_text)
     check.guarded("PAREN-WRAP", X.rule_paren_wrap)
     check.guarded("GROUP", X.rule_hoist_paren)
     check.guarded("PROGRAM-KIND", X.rule_program_kind)
